@@ -41,6 +41,8 @@ def gen_class(seed, k):
     out = subprocess.run([binp, "e2e", "flaggen-spec", "--seed", str(seed), "--k", str(k)], capture_output=True, text=True, timeout=60).stdout
     if "GPOS features" in out:
         return "generated_pair_fonts"
+    if "ljmo" in out or "[108, 106, 109, 111]" in out:
+        return "generated_hangul_fonts"
     for line in out.splitlines():
         m = re.search(r"Multiple \{.*sequences: (.*)", line)
         if m and re.search(r"\[\]", m.group(1)):
